@@ -171,10 +171,12 @@ class Compiler:
         next_named = 1
         # id of next temporary pattern
         next_temp = -1
-        # First number rule names
+        # First number all patterns in all rule names, so that a constraint may refer to
+        # any named pattern of the schema regardless of the order the rules are sorted in
+        rule_temp_pats = []
         for rule in self.lvs.rules:
             temp_pats = {}
-            # First number all patterns in name
+            rule_temp_pats.append(temp_pats)
             for c in rule.name.p:
                 if not isinstance(c, psr.Pattern):
                     continue
@@ -196,7 +198,8 @@ class Compiler:
                         c.id = str(next_named)
                         next_named += 1
                         self.named_pats[pid] = c.id
-            # Now adapt constraints
+        # Now adapt constraints
+        for rule, temp_pats in zip(self.lvs.rules, rule_temp_pats):
             for cons_set in rule.comp_cons:
                 for cons in cons_set:
                     try:
